@@ -3,6 +3,7 @@ package main
 // Evaluation of contract expressions over a symbolic state.
 
 import (
+	"strconv"
 	"fmt"
 	"go/constant"
 	"go/types"
@@ -457,11 +458,25 @@ func (e *SEnv) specEq(a, b Val) Term {
 func (e *SEnv) evalBin(n *SBin) Val {
 	switch n.Op {
 	case "&&":
-		return specBool(And(e.boolOf(e.eval(n.L)), e.boolOf(e.eval(n.R))))
+		// short-circuit on a syntactically decided left operand (the right one may not be evaluable then,
+		// e.g. capt() of a function literal that litof() has just excluded)
+		l := e.boolOf(e.eval(n.L))
+		if l.S == "false" {
+			return specBool(False)
+		}
+		return specBool(And(l, e.boolOf(e.eval(n.R))))
 	case "||":
-		return specBool(Or(e.boolOf(e.eval(n.L)), e.boolOf(e.eval(n.R))))
+		l := e.boolOf(e.eval(n.L))
+		if l.S == "true" {
+			return specBool(True)
+		}
+		return specBool(Or(l, e.boolOf(e.eval(n.R))))
 	case "==>":
-		return specBool(Implies(e.boolOf(e.eval(n.L)), e.boolOf(e.eval(n.R))))
+		l := e.boolOf(e.eval(n.L))
+		if l.S == "false" {
+			return specBool(True)
+		}
+		return specBool(Implies(l, e.boolOf(e.eval(n.R))))
 	case "<==>":
 		return specBool(Eq(e.boolOf(e.eval(n.L)), e.boolOf(e.eval(n.R))))
 	case "==":
@@ -658,6 +673,30 @@ func (e *SEnv) evalCall(n *SCall) Val {
 			return specBool(uf("fnres0_Bool", SBool, as...))
 		}
 		return specInt(uf("fnres0_Int", SInt, as...))
+	case "litof": // litof(f): k when the func value f is the k-th function literal ($k) of the function under contract, 0 for any other function value
+		fv := e.eval(n.Args[0])
+		if fv.Clo == nil || fv.Clo.Fn == nil {
+			return specInt(Zero)
+		}
+		name := fv.Clo.Fn.Name()
+		if i := strings.LastIndex(name, "$"); i >= 0 {
+			if k, err := strconv.Atoi(name[i+1:]); err == nil {
+				return specInt(IntLit(int64(k)))
+			}
+		}
+		return specInt(Zero)
+	case "capt": // capt(f, "x"): the current value of the variable x captured by the function literal f
+		fv := e.eval(n.Args[0])
+		if fv.Clo == nil || fv.Clo.Fn == nil {
+			sfail("capt: the function value is not a known function literal")
+		}
+		want := n.Args[1].(*SStrL).V
+		for i, v := range fv.Clo.Fn.FreeVars {
+			if v.Name() == want && i < len(fv.Clo.Bindings) {
+				return e.st.load(e.r.placeOf(fv.Clo.Bindings[i]))
+			}
+		}
+		sfail("capt: %s does not capture %s", fv.Clo.Fn.Name(), want)
 	case "calls": // calls("T.F"): how many times this function body has called the contracted callee so far
 		return specInt(e.r.callsTerm(e.st, n.Args[0].(*SStrL).V))
 	case "calledwith": // calledwith("T.F", i, x): the most recent call of T.F passed x as argument i (false if never called)
@@ -724,6 +763,13 @@ func (e *SEnv) evalCall(n *SCall) Val {
 			sfail("argsat: bad argument index")
 		}
 		return specBool(And(rec.validTerm(), uf(n.Args[2].(*SStrL).V, SBool, rec.args[idx.V.Int64()].C...)))
+	case "lastarg": // lastarg("T.F", i): argument i of the most recent call of T.F (spec error if never called on this path)
+		rec, ok := e.st.lastCall[n.Args[0].(*SStrL).V]
+		idx, isLit := n.Args[1].(*SIntL)
+		if !ok || !isLit || !idx.V.IsInt64() || int(idx.V.Int64()) >= len(rec.args) {
+			return Val{T: nil, C: []Term{Fresh("noarg", SInt)}}
+		}
+		return rec.args[idx.V.Int64()]
 	case "lastret", "lastretb": // first result of the most recent call of T.F; if never called: an arbitrary integer (lastret) / false (lastretb)
 		rec, ok := e.st.lastCall[n.Args[0].(*SStrL).V]
 		ri := 0
